@@ -427,11 +427,14 @@ def rule_g12(prog, adj):
     return r1, r2
 
 
-def _aliases(I, v, path, roots, top=False):
-    """mutable containers of the arguments reachable from the result"""
+def _aliases(I, v, path, roots, top=False, items_of=()):
+    """mutable containers of the arguments reachable from the result;
+    `items_of`: roots whose items are mutable containers by contract"""
     out = []
 
     def is_mutable_sym(x):
+        if isinstance(x, App) and x.op == 'item' and x.args[0] in items_of:
+            return True
         t = I.typeof(x, path)
         return t is not None and t[0] == 'b' and t[1] in ('set', 'dict',
                                                          'list')
